@@ -297,12 +297,14 @@ impl<K, V> Table<K, V> {
     }
 
     #[inline]
+    #[cfg_attr(flurry_verif, track_caller)]
     pub(crate) fn bin<'g>(&'g self, i: usize, guard: &'g Guard<'_>) -> Shared<'g, BinEntry<K, V>> {
         self.bins[i].load(Ordering::Acquire, guard)
     }
 
     #[inline]
     #[allow(clippy::type_complexity)]
+    #[cfg_attr(flurry_verif, track_caller)]
     pub(crate) fn cas_bin<'g>(
         &'g self,
         i: usize,
@@ -314,11 +316,13 @@ impl<K, V> Table<K, V> {
     }
 
     #[inline]
+    #[cfg_attr(flurry_verif, track_caller)]
     pub(crate) fn store_bin(&self, i: usize, new: Shared<'_, BinEntry<K, V>>) {
         self.bins[i].store(new, Ordering::Release)
     }
 
     #[inline]
+    #[cfg_attr(flurry_verif, track_caller)]
     pub(crate) fn next_table<'g>(&'g self, guard: &'g Guard<'_>) -> Shared<'g, Table<K, V>> {
         self.next_table.load(Ordering::SeqCst, guard)
     }
